@@ -737,6 +737,15 @@ fn invocations(dir: &std::path::Path) -> Vec<Inv> {
     v.push(Inv { args: vec!["run".into(), missing.clone(), "10".into()], expect: None, name: "missing file".into(), stdin: None });
     v.push(Inv { args: vec!["run".into(), bad_file.display().to_string(), "10".into()], expect: None, name: "unparsable program".into(), stdin: None });
     v.push(Inv { args: vec!["verify".into(), missing], expect: None, name: "verify missing file".into(), stdin: None });
+    // PROGRAM is a directory / an empty file / a file of blanks only: read or parse failure, non-zero, no run
+    let empty = dir.join("empty.asm");
+    std::fs::write(&empty, "").unwrap();
+    let blanks = dir.join("blanks.asm");
+    std::fs::write(&blanks, "   \n\n\t\n").unwrap();
+    for p in [dir.display().to_string(), empty.display().to_string(), blanks.display().to_string()] {
+        v.push(Inv { args: vec!["run".into(), p.clone(), "10".into()], expect: None, name: format!("run on {}", p), stdin: None });
+        v.push(Inv { args: vec!["verify".into(), p.clone()], expect: None, name: format!("verify on {}", p), stdin: None });
+    }
     v.push(Inv { args: vec!["verify".into(), bad_file.display().to_string()], expect: None, name: "verify unparsable program".into(), stdin: None });
     v
 }
